@@ -890,6 +890,9 @@ func (ix *Index) populateDeleteClaim(ctx context.Context, cl schema.Claim, vr *j
 		return nil
 	}
 	mm.Set(keyDeleted.Key(target, cl.ClaimDateString(), br), "")
+	// The deletes caches mirror the keyDeleted rows: only a deletion that
+	// got its row is noted.
+	mm.noteDelete(cl)
 	if meta.CamliType == schema.TypeClaim {
 		return nil
 	}
@@ -916,11 +919,7 @@ func (ix *Index) populateClaim(ctx context.Context, fetcher *missTrackFetcher, b
 	mm.Set(keySignerKeyID.name+":"+vr.CamliSigner.String(), verifiedKeyId)
 
 	if claim.ClaimType() == schema.DeleteClaim {
-		if err := ix.populateDeleteClaim(ctx, claim, vr, mm); err != nil {
-			return err
-		}
-		mm.noteDelete(claim)
-		return nil
+		return ix.populateDeleteClaim(ctx, claim, vr, mm)
 	}
 
 	pnbr := claim.ModifiedPermanode()
